@@ -52,6 +52,9 @@ def build(rnd):
     x = x0
     for _ in range(rnd.randint(1, 2)): x = x - rnd.choice([.5, 1.]) * f.gradient(x)
     pep.set_performance_metric((x - xs) ** 2)
+    import zlib
+    if zlib.crc32(repr(rnd.getstate()[1][:3]).encode()) % 3 == 0:
+        pep.set_performance_metric((x0 - xs) ** 2 + 1)          # several metrics: the value is the minimum, not the metric declared last
     if rnd.random() < .4:
         t = Expression(); pep.add_psd_matrix([[(x - xs) ** 2, t], [t, 1 + 0 * t]])
     return pep, c0
@@ -110,6 +113,8 @@ def one(seed):
             ev = int(round((pep.objective.eval() + 3) // 10))
             if ev != primal: primal = -200 - ev
         except Exception: pass
+        # in primal mode the value RETURNED is the objective of the last solve (the minimum of the metrics), nothing else
+        if mode == "primal" and not raises and primal >= 0 and (ret is None or abs(ret - pep.objective.eval()) > 1e-9): primal = -300
     else:
         primal = 1          # invalid heuristic: raised before any instance was stored; the model says "first solve"
     got = "calls=%s duals=%d primal=%d raises=%s" % (",".join(w.calls), duals, primal, "true" if raises else "false")
